@@ -328,6 +328,115 @@ static std::string run_df(const std::vector<std::string>& t) {
   return out;
 }
 
+// ------------------------------------------------------------------ a whole find_node search
+//   DS <own 40hex> <target 40hex> I<id40>:<k>… ( E<id40>:<k> (R<id40>:<k> | X<hex>)* )*
+// I = nodes the routing table knows before the search starts (scripted socket 127.0.0.<k>); every E is a reply of
+// node <id> (from its socket, with the transaction id of the outstanding query there) whose compact `nodes` string
+// is built from the R / X tokens.  Output: per step the find_node queries that arrive at the scripted sockets.
+static std::string run_ds(const std::vector<std::string>& t) {
+  std::string own = unhex(t.at(1)), target = unhex(t.at(2));
+  if (own.size() != 20 || target.size() != 20) return "BADCASE";
+  ThreadMain::thread_main()->set_cached_time(std::chrono::seconds(400ll * 86400));
+  Object cache = Object::create_map();
+  cache.insert_key("self_id", own);
+  std::unique_ptr<DhtRouter> r(new DhtRouter(cache));
+  r->start(pick_port());
+  sockaddr_in srv{};
+  socklen_t sl = sizeof srv;
+  getsockname(r->m_server.file_descriptor(), reinterpret_cast<sockaddr*>(&srv), &sl);
+  sockaddr_in dst = mk_sin(0x7f000001, ntohs(srv.sin_port));
+  auto sock_addr = [&](int k) { sockaddr_in a{}; socklen_t l = sizeof a; getsockname(script_sock(0x7f000000 + k), reinterpret_cast<sockaddr*>(&a), &l); return a; };
+  std::map<std::string, int> idk;
+  for (size_t i = 3; i < t.size(); i++)
+    if (t[i][0] == 'I' || t[i][0] == 'R' || t[i][0] == 'E') {
+      size_t c = t[i].find(':');
+      idk.emplace(t[i].substr(1, c - 1), std::stoi(t[i].substr(c + 1)));
+    }
+  std::map<int, std::string> outstanding;
+  std::string out;
+  auto step = [&](bool do_read) -> std::string {
+    std::string e;
+    try {
+      if (do_read) r->m_server.event_read();
+      if (!r->m_server.m_highQueue.empty() || !r->m_server.m_lowQueue.empty()) r->m_server.event_write();
+    } catch (internal_error& ex) { return std::string("ERR:internal:") + us(ex.what());
+    } catch (bencode_error& ex) { return "ERR:bencode";
+    } catch (std::exception& ex) { return std::string("ERR:other:") + us(ex.what()); }
+    std::vector<std::string> qs;
+    for (auto& [sip, sfd] : g_socks) {
+      char buf[4096];
+      while (true) {
+        sockaddr_in from{};
+        socklen_t fl = sizeof from;
+        ssize_t n = recvfrom(sfd, buf, sizeof buf, 0, reinterpret_cast<sockaddr*>(&from), &fl);
+        if (n < 0) break;
+        if (from.sin_port != srv.sin_port) continue;
+        int k = (int)(sip & 0xff);
+        Object o;
+        std::string q = "undecodable";
+        try {
+          if (object_read_bencode_c(buf, buf + n, &o) == buf + n && o.is_map() && o.has_key_string("q")) {
+            q = o.get_key_string("q");
+            if (!(o.has_key_map("a") && o.get_key("a").has_key_string("id") && o.get_key("a").get_key_string("id") == own)) q += "!not-our-id";
+            if (q == "find_node" && o.has_key_string("t")) outstanding[k] = o.get_key_string("t");
+          } else if (o.is_map() && o.has_key_string("y")) q = "y=" + o.get_key_string("y");
+        } catch (bencode_error&) {}
+        qs.push_back(q + "@" + std::to_string(k));
+      }
+    }
+    std::sort(qs.begin(), qs.end());
+    for (auto& q : qs) { if (!e.empty()) e += ','; e += q; }
+    return e.empty() ? "-" : e;
+  };
+  try {
+    size_t i = 3;
+    for (; i < t.size() && t[i][0] == 'I'; i++) {
+      size_t c = t[i].find(':');
+      sockaddr_in a = sock_addr(std::stoi(t[i].substr(c + 1)));
+      HashString id;
+      id.assign(unhex(t[i].substr(1, c - 1)).data());
+      r->node_replied(id, reinterpret_cast<const sockaddr*>(&a));
+    }
+    for (auto& kv : idk) sock_addr(kv.second);
+    step(false);
+    outstanding.clear();
+    HashString tg;
+    tg.assign(target.data());
+    r->m_server.find_node(*r->bucket(), tg);
+    out = step(false);
+    while (i < t.size() && out.find("ERR:") == std::string::npos) {
+      if (t[i][0] != 'E') { out += " BADCASE"; break; }
+      std::string idhex = t[i].substr(1, t[i].find(':') - 1);
+      i++;
+      std::string nodes;
+      for (; i < t.size() && t[i][0] != 'E'; i++) {
+        if (t[i][0] == 'R') {
+          size_t c = t[i].find(':');
+          sockaddr_in a = sock_addr(std::stoi(t[i].substr(c + 1)));
+          nodes += unhex(t[i].substr(1, c - 1));
+          nodes += std::string(reinterpret_cast<const char*>(&a.sin_addr.s_addr), 4);
+          nodes += std::string(reinterpret_cast<const char*>(&a.sin_port), 2);
+        } else if (t[i][0] == 'X') nodes += unhex(t[i].substr(1));
+        else { out += " BADCASE"; break; }
+      }
+      auto ki = idk.find(idhex);
+      if (ki == idk.end()) { out += " BADCASE"; break; }
+      int k = ki->second;
+      std::string tid = outstanding.count(k) ? outstanding[k] : std::string("\xee");
+      outstanding.erase(k);
+      std::string reply = "d1:rd2:id20:" + unhex(idhex) + "5:nodes" + std::to_string(nodes.size()) + ":" + nodes + "e1:t" +
+                          std::to_string(tid.size()) + ":" + tid + "1:y1:re";
+      if (sendto(script_sock(0x7f000000 + k), reply.data(), reply.size(), 0, reinterpret_cast<sockaddr*>(&dst), sizeof dst) != (ssize_t)reply.size())
+        throw std::runtime_error("sendto");
+      out += " ; " + step(true);
+    }
+  } catch (internal_error& e) { out += std::string(" ERR:internal:") + us(e.what());
+  } catch (std::exception& e) { out += std::string(" ERR:other:") + us(e.what()); }
+  try { r->stop(); r.reset(); } catch (std::exception& e) { out += std::string(" cleanup-ERR:") + us(e.what()); r.release(); }
+  close_socks();
+  return out;
+}
+
 // ------------------------------------------------------------------ PeerList with PeerInfo entries
 //   PI <max> <now> ops…   I <6- or 18-byte record hex> <flags 0|1>   PeerList::insert_address(sa, flags)
 //                         S <ip hex> <connected 0|1> <last_handshake> harness set-up of an existing PeerInfo
@@ -427,6 +536,7 @@ int main() {
     try {
       if (t.size() >= 2 && t[0] == "DH") std::cout << run_dh(t) << "\n";
       else if (t.size() == 2 && t[0] == "DV") std::cout << run_dv(unhex(t[1])) << "\n";
+      else if (t.size() >= 4 && t[0] == "DS") std::cout << run_ds(t) << "\n";
       else if (t.size() >= 8 && t[0] == "DF") std::cout << run_df(t) << "\n";
       else if (t.size() >= 3 && t[0] == "PI") std::cout << run_pi(t) << "\n";
       else std::cout << "BADCASE\n";
